@@ -87,3 +87,33 @@ def run_formulas(name, formulas, maxt=3, maxn=3, vals=(-2, 3), dev=(), workers=8
     if not os.environ.get("VERIF_KEEP"):
         shutil.rmtree(wd, ignore_errors=True)
     return res
+
+
+OCFG = """SPECIFICATION Spec
+CONSTANTS
+ Formulas <- FormulasDef
+ MaxT = %d
+ MaxN = %d
+ Vals <- ValsDef
+ SS = 1
+ T0 = %d
+INVARIANT Denotes
+CHECK_DEADLOCK FALSE
+"""
+
+
+def run_offline(name, formulas, maxt=3, maxn=3, vals=(-2, 1, 3), t0=0, workers=12, timeout=7200, expect_violation=False):
+    """exhaustive TLC run of DenseOffMC: the offline operational model denotes Dense!SigC for formulas x signal pairs"""
+    wd = tlc.workdir(name)
+    mod = "MC_" + name
+    with open(os.path.join(wd, mod + ".tla"), "w") as f:
+        f.write("---- MODULE %s ----\nEXTENDS DenseOffMC\nFormulasDef == %s\nValsDef == %s\n====\n" % (mod, tlc.tla_set(formulas), tlc.tla(set(vals))))
+    with open(os.path.join(wd, mod + ".cfg"), "w") as f:
+        f.write(OCFG % (maxt, maxn, t0))
+    res = tlc.run(wd, mod, workers=workers, timeout=timeout, deadlock=True)
+    tlc.ok_or_machinery(res, name)
+    if expect_violation and not res["violated"]:
+        raise core.Machinery("%s: deviation-on configuration produced no counter-example (vacuous invariants?)" % name)
+    if not os.environ.get("VERIF_KEEP"):
+        shutil.rmtree(wd, ignore_errors=True)
+    return res
